@@ -1,6 +1,6 @@
 (* C18 - Antialiased radial masks form a partition of unity. *)
 From Coq Require Import QArith List ZArith.
-From BF Require Import Model.Masks Proofs.MasksP.
+From BF Require Import Model.Masks Model.BinDefaults Proofs.MasksP Proofs.BinDefaultsP.
 Open Scope Q_scope.
 
 (* for ANY number of bins n, any width w >= 1, any inner radius ri and any radius value r (so for every centre,
@@ -60,3 +60,14 @@ Print Assumptions C18_normalised_bin_sums_to_one.
 Theorem C18_legacy_patch_at_half_pixel_refuted : exists r, (1#2) <= r /\ ~ ((1 - 0) + bin 1 (1 + 1*(1#2)) r <= 1).
 Proof. exact legacy_patch_exceeds_one. Qed.
 Print Assumptions C18_legacy_patch_at_half_pixel_refuted.
+
+(* the all-default layout of radial_bins (radius=None: an integer covering radius R >= 1; n_bins=None: round(R - inner radius); inner radius 0)
+   has R bins of width exactly 1, so it lies inside the premise "bin width >= 1" and sums to 1 at every pixel with 1/2 <= r <= R - 1/2 *)
+Theorem C18_default_layout_width_one : forall R, (1 <= R)%Z -> (inject_Z R - 0) / inject_Z (default_n_bins R 0) == 1.
+Proof. exact default_layout_width_one. Qed.
+Print Assumptions C18_default_layout_width_one.
+
+Theorem C18_default_layout_partition : forall R r, (1 <= R)%Z -> (1#2) <= r -> r <= inject_Z R - (1#2) ->
+  sumQ (bins (Z.to_nat (default_n_bins R 0)) 1 0 r) == 1.
+Proof. exact default_layout_partition. Qed.
+Print Assumptions C18_default_layout_partition.
